@@ -920,6 +920,10 @@ private:
           return false;
         }
         code = (code << 4) | v;
+        if (code > 0x10FFFFu)
+        {
+          return false; // beyond Unicode; stop before the accumulator can wrap
+        }
       }
     }
     else
@@ -933,6 +937,10 @@ private:
           return false;
         }
         code = code * 10u + static_cast<uint32_t>(c - '0');
+        if (code > 0x10FFFFu)
+        {
+          return false; // beyond Unicode; stop before the accumulator can wrap
+        }
       }
     }
     if (!encodeUtf8(code, out))
